@@ -191,3 +191,14 @@ package parse
 //@   loop 3 unroll 2
 //@   before parser.errorp [error-after-end-of-input-is-partial] ps.overEOF > 0 ==> diag.Ranger.Range(arg0).From == len(ps.src)
 //@   ensures psvalid(ps) && ps.src === old(ps.src)
+
+// C01: parsing starts at the very beginning of the source with a clean state, so
+// the root node covers the source from offset 0 (nothing is skipped before the
+// first node), and the end-of-input check runs after the root was parsed.
+//@ func ParseAs
+//@   props C01
+//@   nosafety
+//@   requires Node.n(n) != nil
+//@   log parse parser.done
+//@   before parse [starts-at-offset-zero] ps.pos == 0 && ps.overEOF == 0 && ps.src === src.Code && len(ps.errors) == 0
+//@   exit [whole-source-then-trailing-check] ncalls == 2 && callis(0, "parse") && callis(1, "parser.done")
